@@ -15,6 +15,11 @@ Read from the working tree on every run:
       invokeTypeSaved invoke_watch reads watch->type / watch->t before the callback only
       sigSnapshot     tickit_evloop_invoke_sigwatches walks a snapshot and checks watch_is_linked
       procSnapshot    on_sigchld does the same
+      laterCancelMarks tickit_watch_cancel marks a deferred callback it did not find in t->laters WATCH_NONE (after the
+                      UNBIND notification) and tickit_evloop_invoke_timers skips marked entries, clearing UNBIND of the
+                      entry it is about to invoke
+      processLinked   tickit_watch_process links the watch of a pre-exited child and keeps its later in process.notify,
+                      tickit_watch_cancel cancels that later, process_notify clears the pointer
 """
 import re, select
 
@@ -152,6 +157,22 @@ def run(ctx):
     proc_snapshot = bool(re.search(r"snapshot_watchlist\s*\(\s*t\s*->\s*processes", oc) and
                          re.search(r"watch_is_linked\s*\(\s*t\s*->\s*processes", oc))
 
+    # laterCancelMarks: tickit_watch_cancel has a tail for `!found && watch->type == WATCH_LATER` that sets WATCH_NONE,
+    # and the later loop of tickit_evloop_invoke_timers tests `later->type == WATCH_LATER` and clears UNBIND before the call
+    later_marks = bool(re.search(r"!\s*found\s*&&\s*watch\s*->\s*type\s*==\s*WATCH_LATER", wc) and
+                       re.search(r"watch\s*->\s*type\s*=\s*WATCH_NONE", wc) and
+                       re.search(r"if\s*\(\s*later\s*->\s*type\s*==\s*WATCH_LATER\s*\)", inv) and
+                       re.search(r"later\s*->\s*flags\s*&=\s*~\s*TICKIT_BIND_UNBIND", inv))
+
+    # processLinked: tickit_watch_process keeps the later of a pre-exited child in process.notify and links the watch;
+    # tickit_watch_cancel cancels that later; process_notify clears the pointer
+    wp = body_of(tk, "tickit_watch_process") or ""
+    pn = body_of(tk, "process_notify") or ""
+    process_linked = bool(re.search(r"process\s*\.\s*notify\s*=\s*tickit_watch_later\s*\(", wp) and
+                          not re.search(r"tickit_watch_later\s*\([^;]*;\s*return\s+watch\s*;", wp) and
+                          re.search(r"if\s*\(\s*this\s*->\s*process\s*\.\s*notify\s*\)\s*tickit_watch_cancel\s*\(\s*t\s*,\s*this\s*->\s*process\s*\.\s*notify\s*\)", wc) and
+                          re.search(r"process\s*\.\s*notify\s*=\s*NULL", pn))
+
     def lst(pairs):
         return "[" + ", ".join(f"({a}, {b})" for a, b in pairs) + "]"
 
@@ -181,8 +202,10 @@ def run(ctx):
     body += f"def invokeTypeSaved : Bool := {b(invoke_type_saved)}\n"
     body += f"def sigSnapshot : Bool := {b(sig_snapshot)}\n"
     body += f"def procSnapshot : Bool := {b(proc_snapshot)}\n"
+    body += f"def laterCancelMarks : Bool := {b(later_marks)}\n"
+    body += f"def processLinked : Bool := {b(process_linked)}\n"
     body += "end Tickit.Gen.EvLoop\n"
     write("EvLoop", body)
     info["evloop"] = {"masks": masks, "timersPop": timers_pop, "errnoSaved": errno_saved, "pendingInit": pending_init,
-                      "reventsCleared": revents_cleared, "invokeTypeSaved": invoke_type_saved, "sigSnapshot": sig_snapshot, "procSnapshot": proc_snapshot, "insertCmp": insert_cmp, "dueCmp": due_cmp,
+                      "reventsCleared": revents_cleared, "invokeTypeSaved": invoke_type_saved, "sigSnapshot": sig_snapshot, "procSnapshot": proc_snapshot, "laterCancelMarks": later_marks, "processLinked": process_linked, "insertCmp": insert_cmp, "dueCmp": due_cmp,
                       "unreadable": notes}
